@@ -378,27 +378,70 @@ def crossing(ctx):
             res.fail(ctx.finding('CROSSING', f, f.node,
                                  f'{name} = {ev.returned}, expected {want}',
                                  construct=name))
-    # stop-at-object / stop-at-last arms
-    f = P.func('Paraxial.EPL')
-    ev, info, sym = _ret_eval(P, f, lambda t, e: True
-                              if 'stop_index ==' in unparse(t) else None)
-    if isinstance(ev.returned, Rat) and 'positions[1]' in repr(ev.returned):
-        res.ok('EPL, stop at object surface index 0: first-surface position')
-    f = P.func('Paraxial.XPL')
-    ev, info, sym = _ret_eval(P, f, lambda t, e: True
-                              if 'stop_index ==' in unparse(t) else None)
-    r = ev.returned
-    if isinstance(r, Rat):
-        ats = sorted(r.atoms())
-        if len(ats) == 2 and any('[-2]' in a for a in ats) and \
-                any('[-1]' in a for a in ats):
-            res.ok('XPL, stop on the last surface: positions[-2] - '
-                   'positions[-1]')
+    # pupil traces start at the stop centre of the group that is traced and
+    # skip exactly the surfaces up to and including the stop
+    for name, grp in (('EPL', 'INV'), ('XPL', 'self.surfaces')):
+        f = P.func('Paraxial.' + name)
+        seen = {}
+
+        def ch(t, e, seen=seen):
+            if 'stop_index ==' in unparse(t) and isinstance(t, ast.Compare):
+                seen['lhs'] = e.ev(t.left)
+                seen['rhs'] = e.ev(t.comparators[0])
+                seen['op'] = type(t.ops[0]).__name__
+                return False
+            return None
+        ev, info, sym = _ret_eval(P, f, ch)
+        call = info['calls'][0]
+        z = ev.ev(call.args[2])
+        sk = [ev.ev(k.value) for k in call.keywords if k.arg == 'skip']
+        okz = rat_eq(z, A(f'{grp}.positions[{grp}.stop_index]')) and sk and \
+            rat_eq(sk[0], A(f'{grp}.stop_index') + ONE)
+        if okz:
+            res.ok(f'{name}: launched at positions[stop_index] of the traced '
+                   f'group, skip = stop_index + 1')
         else:
-            res.fail(ctx.finding('CROSSING', f, f.node,
-                                 'XPL stop-on-last-surface arm is not '
-                                 'positions[-2] - positions[-1]',
-                                 construct='XPL last-surface arm'))
+            res.fail(ctx.finding(
+                'CROSSING', f, call,
+                f'{name}: the pupil ray is launched at z = {z} with skip = '
+                f'{sk[0] if sk else None}: not the stop centre of the traced '
+                f'group / not the surfaces after the stop',
+                construct=f'{name} launch plane'))
+        # special arm
+        lhs, rhs = seen.get('lhs'), seen.get('rhs')
+        want_rhs = ZERO if name == 'EPL' else None
+        okc = isinstance(lhs, Rat) and rat_eq(
+            lhs, A('self.surfaces.stop_index')) and seen.get('op') == 'Eq'
+        if name == 'EPL':
+            okc = okc and isinstance(rhs, Rat) and rat_eq(rhs, ZERO)
+        else:
+            okc = okc and isinstance(rhs, Rat) and len(rhs.atoms()) == 1 and \
+                rat_eq(rhs, A(sorted(rhs.atoms())[0]) - C(2)) and \
+                'len' in sorted(rhs.atoms())[0]
+        ev2, info2, sym2 = _ret_eval(P, f, lambda t, e: True
+                                     if 'stop_index ==' in unparse(t) else None)
+        r = ev2.returned
+        if name == 'EPL':
+            okv = isinstance(r, Rat) and rat_eq(
+                r, A('self.surfaces.positions[1]'))
+            what = ('stop on the object surface (index 0): EPL = position of '
+                    'the first surface')
+        else:
+            okv = isinstance(r, Rat) and (
+                rat_eq(r, A('self.optic.surface_group.positions[-2]') -
+                       A('self.optic.surface_group.positions[-1]')) or
+                rat_eq(r, A('self.surfaces.positions[-2]') -
+                       A('self.surfaces.positions[-1]')))
+            what = ('stop on the last surface before the image: XPL = '
+                    'positions[-2] - positions[-1]')
+        if okc and okv:
+            res.ok(f'{name} special arm: {what}')
+        else:
+            res.fail(ctx.finding(
+                'CROSSING', f, f.node,
+                f'{name} special arm (condition {seen.get("lhs")} '
+                f'{seen.get("op")} {seen.get("rhs")}, value {r}) is not: '
+                f'{what}', construct=f'{name} special arm'))
     return res
 
 
@@ -475,9 +518,29 @@ def fno_epd(ctx):
                                  f"{fno} do not satisfy FNO * EPD = f2",
                                  construct=f'arm {ap}'))
     # object NA arm shape: 2 (EPL - obj_z) tan(arcsin(NA / n0))
-    src = Code(P, fe)
-    if 'np.arcsin(ap_value / n0)' in src and 'np.tan(u0)' in src and \
-            'self.EPL() - obj_z' in src:
+    def ch_na(test, ev):
+        s_ = unparse(test)
+        if 'ap_type ==' in s_:
+            return "'objectNA'" in s_
+        return None
+    eve, _, syme = _ret_eval(P, fe, ch_na)
+    epd = eve.returned
+    okna = False
+    asin = [(a, d) for a, d in syme.defs.items() if d[0] == 'call:np.arcsin']
+    ncall = [(a, d) for a, d in syme.defs.items()
+             if d[0].startswith('call:') and d[0].endswith(
+                 'object_surface.material_post.n')]
+    if isinstance(epd, Rat) and len(asin) == 1 and len(ncall) == 1:
+        th = A(asin[0][0])
+        arg = asin[0][1][1][0]
+        nar = ncall[0][1][1]
+        okna = rat_eq(arg, A('self.optic.aperture.value') / A(ncall[0][0])) \
+            and len(nar) == 1 and rat_eq(
+                nar[0], A('self.optic.primary_wavelength')) and syme.eq(
+                epd * syme.cos(th), C(2) * (
+                    A('EPL()') - A('self.optic.object_surface.geometry.cs.z'))
+                * syme.sin(th))
+    if okna:
         res.ok('objectNA arm: 2 (EPL - z_obj) tan(asin(NA / n0))')
     else:
         res.fail(ctx.finding('FNO-EPD', fe, fe.node,
@@ -722,6 +785,31 @@ def object_position(ctx):
                                  construct='Paraxial.trace aim'))
     else:
         raise AnalysisError('Paraxial.trace: ParaxialRays not constructed')
+    gop = got.get('gop')
+    if gop and len(gop) == 3 and rat_eq(gop[0], A('Hy')) and rat_eq(
+            gop[1], A('Py') * A('EPD()') / C(2)) and rat_eq(
+            gop[2], A('EPL()')):
+        res.ok('trace: object point requested for (Hy, Py EPD/2, EPL)')
+    else:
+        res.fail(ctx.finding('OBJECT-POSITION', f, f.node,
+                             'the object point is not requested with (Hy, '
+                             'pupil height, EPL)',
+                             construct='Paraxial.trace object point arguments'))
+    tr = [c for c in ast.walk(f.node) if isinstance(c, ast.Call) and
+          isinstance(c.func, ast.Attribute) and c.func.attr == 'trace' and
+          'surface_group' in unparse(c.func.value)]
+    mk = [st for st in ast.walk(f.node) if isinstance(st, ast.Assign) and
+          isinstance(st.value, ast.Call) and
+          unparse(st.value.func) == 'ParaxialRays']
+    if tr and mk and len(tr[0].args) == 1 and \
+            unparse(tr[0].args[0]) == unparse(mk[0].targets[0]) and \
+            len(got['rays']) >= 4 and rat_eq(got['rays'][3], A('wavelength')):
+        res.ok('trace: the constructed rays (with the requested wavelength) '
+               'are traced through the lens')
+    else:
+        res.fail(ctx.finding('OBJECT-POSITION', f, f.node,
+                             'Paraxial.trace does not trace the rays it '
+                             'built', construct='Paraxial.trace traces rays'))
     g = P.func('Paraxial._get_object_position')
     res.saw(g)
     # finite object + angular field is outside the quantifier of every property
@@ -743,8 +831,11 @@ def object_position(ctx):
         y0, z0 = out
         fy = A('self.optic.fields.max_field') * A('Hy')
         tanf = sym.sin(fy * A('pi') / C(180)) / sym.cos(fy * A('pi') / C(180))
+        zatoms = sorted(z0.atoms()) if isinstance(z0, Rat) else []
         if ft == 'object_height':
-            ok = sym.eq(y0, -fy) and 'cs.z' in repr(z0)
+            ok = sym.eq(y0, -fy) and len(zatoms) == 1 and \
+                zatoms[0].endswith('object_surface.geometry.cs.z') and \
+                rat_eq(z0, A(zatoms[0]))
             what = 'object height: y0 = -Hy max_field at the object vertex'
         else:
             # chief ray (y1 = 0) passes the pupil centre at angle field_y:
@@ -756,6 +847,12 @@ def object_position(ctx):
             ok = sym.eq(y0, A('y1') - tanf * (A('EPL') - (
                 A('self.optic.surface_group.positions[1]') * ZERO if inf
                 else z0)))
+            if inf:
+                # the launch plane is the first surface (EPL is measured
+                # from it)
+                ok = ok and len(zatoms) == 1 and \
+                    zatoms[0].endswith('surface_group.positions[1]') and \
+                    rat_eq(z0, A(zatoms[0]))
             what = ('angular field: y0 = y1 - tan(theta) (EPL - z0) '
                     f'({"infinite" if inf else "finite"} object)')
         if ok:
